@@ -46,13 +46,13 @@ CLAIMS = {
             "TLC enumerates all run descriptors of the menu (36 000) and checks C12_Names, StartsWithPrefixSep, ExtDropped, Injective on the three-step naming machine; behaviours are replayed through the real cminx.main in a sandbox (cwd, HOME, settings file synthesised) and the first lines, the module directive and the first entry's doc compared with the ideal.",
             "module doccomments at indentation 0; upper-case extensions not judged for dropping; quick tier replays a seeded sample", "4 C12"),
     "C13": ("spec/Walk.tla, MC_Walk.tla",
-            "TLC explores the walk of cminx.document (file system as state, listing order as environment choice, output directory inside or outside the input tree) and checks C13_PagesAreProcessedFiles, C13_OneIndexPerProcessedDir, C13_OnePagePerFile, C13_NoDivergence against the ideal computed from the initial tree; every terminal behaviour is materialised and run through the real cminx.document with the listing orders imposed; compared: the exact set of files under the output directory (or the documented files in stdout mode).",
+            "TLC explores the walk of cminx.document (file system as state, listing order as environment choice, output directory inside or outside the input tree) and checks C13_PagesAreProcessedFiles, C13_OneIndexPerProcessedDir, C13_OnePagePerFile, C13_NoDivergence against the ideal computed from the initial tree; every terminal behaviour is materialised and run through the real cminx.document with the listing orders imposed; compared: the exact set of files under the output directory (or the documented files in stdout mode); each behaviour is replayed under three listing orders; real walks over random trees are recorded visit by visit and validated by TLC (TraceWalk.tla), which evaluates the C13 predicates on the observed effects.",
             "tree/pattern menus and bounds as in evidence; symlinks out of scope; string functions on names are inputs", "4 C13"),
     "C14": ("spec/Walk.tla, MC_Walk.tla",
-            "TLC checks C14_ToctreeExact, C14_NoDangling, C14_Reachable, C14_IndexTitle on the specification; replayed behaviours compare title and toctree entries of every generated index.rst with the processed files/sub-directories and check closure on the files really written.",
+            "TLC checks C14_ToctreeExact, C14_NoDangling, C14_Reachable, C14_IndexTitle on the specification; replayed behaviours compare title and toctree entries of every generated index.rst with the processed files/sub-directories; closure (no dangling entry, every page listed) is demanded of every run whatever the tree; recorded walks over random trees are validated by TLC (TraceWalk.tla).",
             "as C13; separators from {'.', '::'}", "4 C14"),
     "C15": ("spec/Walk.tla, MC_Walk.tla",
-            "TLC checks C15_ProcessedIffNotMatched, C15_NotDescended, C15_ExcludedNotScanned, C15_WholeInputExcluded for every pattern set of the menu and every listing permutation; replayed behaviours compare the documented files with the non-excluded ones and the directories listed (os.walk roots, os.scandir calls) with the excluded set.",
+            "TLC checks C15_ProcessedIffNotMatched, C15_NotDescended, C15_ExcludedNotScanned, C15_WholeInputExcluded for every pattern set of the menu and every listing permutation; replayed behaviours compare the documented files with the non-excluded ones and the directories listed (os.walk roots, os.scandir calls) with the excluded set, under three listing orders each; in recorded walks over random trees every observed PathSpec.match_file result is compared by TLC with Walk.Match.",
             "gitignore semantics of pathspec trusted; pattern forms: name, name/, *.ext, **/name, absolute path", "4 C15"),
     "C16": ("spec/Config.tla, MC_C16.tla",
             "TLC checks C16_Precedence, C16_WrongTypeRejected, C16_ExcludesUnion on the source-stacking machine (Configuration, set_file, set_args, get, all_contents) for every option x every subset of sources, and pairs of options; every behaviour is replayed through the real cminx.main with synthesised YAML sources and the Settings object handed to cminx.document compared field by field, incl. exclude-filter concatenation, output-directory resolution and rejection of wrong-typed values.",
@@ -67,7 +67,7 @@ CLAIMS = {
             "TLC checks C19_Argv for every input kind x extra-argument list; each case runs the real cmake/cminx.cmake under cmake -P with CMINX_EXECUTABLE bound to a shim that logs argv and runs the working-tree CMinx; compared: logged argv vs. the specification's, cmake failing fatally iff CMinx fails, output tree vs. the direct command-line run.",
             "arguments with ';' excluded; script mode stands for configure", "4 C19"),
     "C20": ("spec/RstWriter.tla, MC_C20.tla",
-            "TLC checks HeadingFramed, IndentExact, OptionsFirst, OrderPreserved, ClearKeepsHeading and the action property ToTextIsPure on the API-history machine for all histories up to the bound; every history ending in to_text is replayed on the real RSTWriter, each serialisation compared character for character with the specification's Lines(), serialised twice and the document compared before/after.",
+            "TLC checks HeadingFramed, IndentExact, OptionsFirst, OrderPreserved, ClearKeepsHeading and the action property ToTextIsPure on the API-history machine for all histories up to the bound; every history ending in to_text is replayed on the real RSTWriter, each serialisation compared character for character with the specification's Lines(), serialised twice and the document compared before/after; the writer calls of real pipeline runs are replayed by TLC (TraceRstWriter.tla) and the predicted serialisation compared line by line with the real page; section() and doctest() are modelled for conformance.",
             "single-line field values; section/doctest/simple_table not exercised; bounds as in evidence", "4 C20"),
 }
 
